@@ -84,7 +84,7 @@ def generate(rng, tier, idx):
     YV = rng.integers(0, int(Y.max()) + 1, size=len(V))
     Q = data(int(rng.integers(1, 7)))
     choices = ["fit", "predict", "dist", "save", "pre", "eval", "predict", "fit", "noise"]
-    ops = ["fit"] + [choices[int(rng.integers(0, len(choices)))] for _ in range(int(rng.integers(1, 9)))]
+    ops = ["fit"] + (["noise", "fit"] if rng.random() < 0.3 else []) + [choices[int(rng.integers(0, len(choices)))] for _ in range(int(rng.integers(1, 9)))]
     max_k = int(rng.integers(1, min(4, n - 1) + 1))
     return {"kind": "model", "model": model, "metric": name, "X": X.tolist(), "Y": Y.tolist(), "V": V.tolist(),
             "YV": YV.tolist(), "Q": Q.tolist(), "ops": ops, "protect": protect, "max_k": max_k}
@@ -254,6 +254,10 @@ def _check_model(case, res, tmp):
             wide = np.hstack([orig["X"], orig["X"][:, :1] * 0.5 + 0.1, orig["X"][:, :1] * 0.25 + 0.2])
             other = build_model("supervised", name)
             safe_call(other.fit, wide, orig["Y"].copy())
+            # a fresh model of the SAME kind and parameters on wider-spread data of the same shape (module-level work arrays
+            # keyed by k / by shape would carry its maxima over)
+            spread = build_model(kind, name, **kw)
+            _fit(kind, spread, orig["X"] * 7.0 + 1.0, orig["Y"].copy(), orig["V"] * 7.0 + 1.0, orig["YV"].copy())
             res.see("other_length_evaluations")
         after = fps()
         res.see("fingerprints_compared", len(arrs))
